@@ -114,6 +114,20 @@ Theorem C06_name_is_hash :
 Proof. exact build_name_is_hash. Qed.
 Print Assumptions C06_name_is_hash.
 
+(* For a chain the two statements combine: the accumulated object [st] carries the dictionary fold as its data
+   ([chain_data] reads only files, generator declarations and generatorOptions — no namespace, prefix, suffix,
+   label or annotation directive), and the emitted object is [st] renamed with the hash of exactly that content. *)
+Theorem C06_name_is_hash_chain :
+  forall sec name d below out,
+    chain_for sec name (d :: below) ->
+    build (chain_layer d below) = Ok out ->
+    exists st, chain_sem d below = Ok st /\
+               chain_data d below = Ok (option_map data_of st) /\
+               (forall o, st = Some o -> g_secret o = sec) /\
+               Forall2 hashed_from (opt_list st) out.
+Proof. exact chain_name_is_hash. Qed.
+Print Assumptions C06_name_is_hash_chain.
+
 (* The law "every acceptable content has a name" fails (finding hash-yaml-roundtrip-leading-tab): the hash is
    undefined exactly on contents whose YAML text go-yaml cannot read back (partial) ... *)
 Theorem C06_hash_total_partial :
